@@ -5,14 +5,14 @@ CONSTANTS
   EReps = {1}
   CovReps = {}
   VReps = {1}
-  Vals = {1}
+  Vals = {1, 6}
   XFlags = {FALSE}
-  MaxRuns = 3
-  MaxRows = 3
-  ERowReps = {1, 2}
-  VRowReps = {1, 2}
+  MaxRuns = 5
+  MaxRows = 1
+  ERowReps = {1}
+  VRowReps = {1}
   MaxArea = 4194304
-  WsNames = {}
-  PwNames = {""}
+  WsNames = {"nl2"}
+  PwNames = {"", "nl"}
 INVARIANTS ColsAgree PendingOnlyEmpty NoError Incremental Refines Dump
 CHECK_DEADLOCK FALSE
